@@ -42,6 +42,7 @@ from __future__ import annotations
 
 import base64
 import os
+import secrets
 import struct
 import threading
 import time
@@ -550,6 +551,7 @@ def _seal_cursor_token(
     token_key: bytes,
     aad: bytes,
     created_at: int,
+    method: str = "",
 ) -> bytes:
     """Seal the advancing half of a stream's state into a cursor token.
 
@@ -558,6 +560,13 @@ def _seal_cursor_token(
         [ 8 bytes : created_at (uint64 LE, seconds since epoch)]
         [16 bytes : call_id    (the call token this cursor belongs to)]
         [ 4 bytes : state_len  (uint32 LE)] [state_bytes]
+        [ 4 bytes : method_len (uint32 LE)] [method (UTF-8)]   (when *method* is given)
+
+    The method name binds the cursor to the stream method whose ``init``
+    minted it: every state class deserializes from bytes another method's
+    state produced, so without it ``/{other}/exchange`` would process state
+    its own initialization never created.  The call token needs no such
+    field — it is tied to the cursor through the call id.
 
     Everything the v4 token carried besides the state — both schemas and the
     stream id — has moved to the call token, since none of it can change
@@ -571,12 +580,16 @@ def _seal_cursor_token(
         token_key: 32-byte master AEAD key.
         aad: Associated data binding the token to its principal.
         created_at: Token creation time as seconds since epoch.
+        method: Name of the stream method the token is minted for.
 
     Returns:
         The opaque sealed token, base64-encoded for UTF-8 safe metadata.
 
     """
     plaintext = struct.pack("<Q", created_at) + call_id + struct.pack("<I", len(state_bytes)) + state_bytes
+    if method:
+        method_bytes = method.encode()
+        plaintext += struct.pack("<I", len(method_bytes)) + method_bytes
     sealed = crypto.seal_bytes(_pack_plaintext(plaintext), token_key, aad=aad, version=_CURSOR_TOKEN_VERSION)
     return base64.b64encode(sealed)
 
@@ -586,6 +599,7 @@ def _open_cursor_token(
     token_key: bytes,
     aad: bytes,
     token_ttl: int = 0,
+    method: str | None = None,
 ) -> tuple[bytes, bytes]:
     """Open and verify a cursor token.
 
@@ -594,6 +608,9 @@ def _open_cursor_token(
         token_key: 32-byte master AEAD key.
         aad: Associated data — must match the AAD used at seal time.
         token_ttl: Maximum token age in seconds; ``0`` disables expiry.
+        method: When given, the stream method the token must have been
+            minted for; any other token (including one carrying no method)
+            is rejected.
 
     Returns:
         ``(state_bytes, call_id)``.  The call id is authenticated by the
@@ -626,13 +643,21 @@ def _open_cursor_token(
 
     call_id = plaintext[_TIMESTAMP_LEN : _TIMESTAMP_LEN + _CALL_ID_LEN]
     state_bytes, payload_end = _read_segment(plaintext, _TIMESTAMP_LEN + _CALL_ID_LEN, "Malformed state token")
+    token_method = b""
     if payload_end != len(plaintext):
-        raise _RpcHttpError(RuntimeError("Malformed state token"), status_code=HTTPStatus.BAD_REQUEST)
+        token_method, payload_end = _read_segment(plaintext, payload_end, "Malformed state token")
+        if payload_end != len(plaintext) or not token_method:
+            raise _RpcHttpError(RuntimeError("Malformed state token"), status_code=HTTPStatus.BAD_REQUEST)
 
     if token_ttl > 0:
         created_at = struct.unpack_from("<Q", plaintext, 0)[0]
         if int(time.time()) - created_at > token_ttl:
             raise _RpcHttpError(RuntimeError("State token expired"), status_code=HTTPStatus.BAD_REQUEST)
+
+    if method is not None and not secrets.compare_digest(token_method, method.encode()):
+        raise _RpcHttpError(
+            RuntimeError("State token was not issued for this method"), status_code=HTTPStatus.BAD_REQUEST
+        )
 
     return state_bytes, call_id
 
@@ -645,6 +670,7 @@ def _mint_cursor_token(
     auth: AuthContext | None,
     *,
     now: int | None = None,
+    method: str = "",
 ) -> tuple[bytes, bytes]:
     """Serialize the cursor state and seal it into a continuation token.
 
@@ -660,6 +686,7 @@ def _mint_cursor_token(
         token_key: Master AEAD key from the server config.
         auth: Authenticated identity for AAD binding.
         now: Override for the baked-in timestamp; default ``time.time()``.
+        method: Name of the stream method the cursor belongs to.
 
     Returns:
         ``(token, state_bytes)`` — the sealed token for the
@@ -674,6 +701,7 @@ def _mint_cursor_token(
         token_key,
         _compute_aad(auth),
         int(time.time()) if now is None else now,
+        method,
     )
     return token, state_bytes
 
